@@ -60,6 +60,7 @@ class Baton:
         self.main_lock = _thread.allocate_lock()
         self.main_lock.acquire()
         self.lock_waits = 0
+        self.lock_blocked_set = set()
         self.current = None
         self.done = [False] * nthreads
         self.op_index = [-1] * nthreads     # current op of each thread
@@ -201,13 +202,20 @@ class Baton:
         """Called by a SimLock whose acquire would block: run somebody else.
         Deterministic choice (next runnable thread in cyclic order), so nothing
         has to be recorded for replay.  False = nobody else can run."""
+        self.lock_blocked_set.add(me)
         others = self._runnable_others(me)
-        if not others:
+        free = [t for t in others if t not in self.lock_blocked_set]
+        if not free:
+            # every thread that could still run is itself waiting for a lock (or
+            # there is none): in a real execution nobody would ever release it
             return False
-        to = min(others, key=lambda t: (t - me) % self.n)
+        to = min(free, key=lambda t: (t - me) % self.n)
         self.lock_waits += 1
         self._switch(me, to)
         return True
+
+    def lock_acquired(self, me):
+        self.lock_blocked_set.discard(me)
 
     # -- thread lifecycle -------------------------------------------------
     def begin_op(self, t, op_index, cancellable):
